@@ -253,8 +253,12 @@ def run(chk) -> None:
         # the list appended to is the one consulted for files and sub-directories
         lst = c.func.value
         uses = [x for x in calls_in(f) if call_name(x) == "_check_ignore_specs" and len(x.args) > 1 and norm(x.args[1]) == norm(lst)]
-        chk.count("R25e.inner_list_consulted", len(uses))
-    chk.floor("R25e.inner_list_consulted", 2)
+        in_file_loop = [x for x in uses if any(isinstance(y, ast.Yield) for y in ast.walk(_enclosing_for(x, walk_for) or ast.Pass()))]
+        chk.require(
+            len(uses) >= 2 and len(in_file_loop) >= 1 and len(in_file_loop) < len(uses), "R25e", c,
+            "the inner ignore list must be consulted both when pruning sub-directories and when selecting files",
+            detail="inner list consulted for sub-directories and files",
+        )
     # pruning: sub-directories are removed from the list os.walk recurses on
     removes = [c for c in calls_in(f) if last_attr(c) == "remove" and isinstance(c.func, ast.Attribute) and isinstance(c.func.value, ast.Name)]
     pruned = False
@@ -269,6 +273,16 @@ def run(chk) -> None:
                 "sub-directory pruning is not guarded by both the outer and the inner ignore test", detail="prune guard",
             )
     chk.require(pruned, "R25e", f, "ignored sub-directories are not pruned from the walk (subdirs list of os.walk)", detail="prune present")
+
+
+def _enclosing_for(node, stop):
+    """Innermost ``for`` loop around node that is nested in ``stop``."""
+    p = getattr(node, "_parent", None)
+    while p is not None and p is not stop:
+        if isinstance(p, ast.For):
+            return p
+        p = getattr(p, "_parent", None)
+    return None
 
 
 def _r25d(chk, repo) -> None:
@@ -334,3 +348,69 @@ def _r25d(chk, repo) -> None:
         if isinstance(p, ast.For) and isinstance(p.iter, ast.Call) and call_name(p.iter) == "_iter_config_files":
             ok = True
     chk.require(ok, "R25d", e, "outer ignore specs are not loaded from the config files between working directory and path", detail="outer specs loaded")
+
+
+from ..selftest import Variant  # noqa: E402
+
+VARIANTS = [
+    Variant(
+        "abs-prefix-vs-walk-dirname", DISC,
+        "                or os.path.abspath(dirname).startswith(\n",
+        "                or dirname.startswith(\n",
+        "R25a", "_iter_files_in_path", "re-introduces the original defect",
+    ),
+    Variant(
+        "equality-mixed-spelling", DISC,
+        "                dirname == inner_dirname\n",
+        "                os.path.abspath(dirname) == inner_dirname\n",
+        "R25a", "_iter_files_in_path",
+    ),
+    Variant(
+        "frozen-cwd-default", DISC,
+        "    working_path: Optional[str] = None,\n",
+        "    working_path: Optional[str] = os.getcwd(),\n",
+        "R25b", "paths_from_path",
+    ),
+    Variant(
+        "match-absolute-path", DISC,
+        "spec.match_file(os.path.relpath(absolute_filepath, dirname))",
+        "spec.match_file(absolute_filepath)",
+        "R25c", "_check_ignore_specs",
+    ),
+    Variant(
+        "inner-ignore-test-dropped", DISC,
+        "            if _check_ignore_specs(absolute_path, inner_ignore_specs):\n                continue\n",
+        "",
+        "R25d", "_iter_files_in_path",
+    ),
+    Variant(
+        "exact-path-ignore-test-dropped", DISC,
+        "    if not ignore_file:\n        # If not ignored",
+        "    if True:\n        # If not ignored",
+        "R25d", "_process_exact_path",
+    ),
+    Variant(
+        "extension-test-dropped", DISC,
+        "            if not _match_file_extension(filename, lower_file_exts):\n                continue\n",
+        "",
+        "R25d", "_iter_files_in_path",
+    ),
+    Variant(
+        "prune-only-outer", DISC,
+        "            if _check_ignore_specs(\n                absolute_path, outer_ignore_specs\n            ) or _check_ignore_specs(absolute_path, inner_ignore_specs):",
+        "            if _check_ignore_specs(\n                absolute_path, outer_ignore_specs\n            ):",
+        "R25e", "_iter_files_in_path",
+    ),
+    Variant(
+        "walk-bottom-up", DISC,
+        "os.walk(path, topdown=True)",
+        "os.walk(path, topdown=False)",
+        "R25e", "_iter_files_in_path",
+    ),
+    Variant(
+        "loader-gets-root-path", DISC,
+        "ignore_file_loaders[ignore_file](dirname, ignore_file)",
+        "ignore_file_loaders[ignore_file](path, ignore_file)",
+        "R25e", "_iter_files_in_path",
+    ),
+]
